@@ -28,10 +28,13 @@ TRUSTED = ["Coq 8.16.1 kernel (coqc; coqchk in the thorough tier); vm_compute us
            "fibers at that depth, each a path of that depth; owner flag) evaluated on the implementation's observation"]
 ASSUMPTIONS = ["operation set of the model (same as C01): getPayloadRef(+write), getPayload, append(leaf), __setitem__(leaf/coordinate), clear, "
                "updateCoords (affine and table-driven), updatePayloads, iterRangeShapeRef, getPosition/getPositionRef/getPayload/getPayloadRef "
-               "with start_pos, on tensors built by Tensor.fromFiber-style loading (depth 1-3 in the explored cases; the theorems are for any depth)",
+               "with start_pos, and the fiber-valued mutators (argument fiber given as a tree literal of the matching depth with strictly increasing coordinates, built unowned with the leaf default at the leaf rank and default Fiber at interior ranks): append(c, fiber) and __setitem__(pos, fiber) on interior fibers, extend(fiber) and fiber <<= fiber at any rank (Fiber._registerPayload / _disownPayload: the new fibers are appended to their ranks in "
+               "depth-first order, the replaced ones leave their ranks), on tensors built by Tensor.fromFiber-style loading (depth 1-3 in the "
+               "explored cases; the theorems are for any depth)",
                "NOT in the model, hence not covered by the C02 theorems: the other constructors (fromUncompressed, fromRandom, fromYAMLfile, "
                "makePopulated), deepcopy, transform results (each ends in Tensor.fromFiber = load, but the transforms themselves are not modelled "
-               "here), populate loops with create-then-pop (C05), fiber-valued append/extend/__setitem__ and fiber <<= (suspect S22/S7b), "
+               "here), populate loops with create-then-pop (C05; see the populate stream), "
+               "aliasing of an append/extend/__setitem__ argument with the tree after the call (the model builds the sub-fibers afresh), "
                "rank chaining (next_rank pointers: ranks are a list in the model, so chaining is structural)",
                "C02_step_mirror/C02_history_mirror assume wf_st s (C01's invariant, itself preserved by every step: C01_step_wf) only to know the "
                "root is a fiber and n >= 1; C02_init_mirror_any needs no well-formedness at all",
